@@ -204,6 +204,17 @@ benign("mean-through-local", "the mean accumulates a local read after the update
 benign("request-nonblocking-notify", "RequestSnapshot also pokes a buffered channel without blocking",
        (MP, "\tatomic.StoreUint32(&mp.startSnapshot, 1)\n}", "\tatomic.StoreUint32(&mp.startSnapshot, 1)\n\tselect {\n\tcase snapshotPoke <- struct{}{}:\n\tdefault:\n\t}\n}\n\nvar snapshotPoke = make(chan struct{}, 1)", False))
 
+# test seams: package-level function variables whose default is the original function (E1c)
+benign("seam-recorder-remove-rename-now", "the file recorder reaches os.Remove, os.Rename and time.Now through package-level function variables",
+       (CF, "var reTempName = regexp.MustCompile(", "var (\n\tremoveFile = os.Remove\n\trenameFile = os.Rename\n\tnow        = time.Now\n)\n\nvar reTempName = regexp.MustCompile(", False),
+       (CF, "\t\tos.Remove(fw.writer.Name())", "\t\tremoveFile(fw.writer.Name())", False),
+       (CF, "\t\t\tif err := os.Remove(filename); err != nil {", "\t\t\tif err := removeFile(filename); err != nil {", False),
+       (CF, "\terr := os.Rename(tempName, finalName)", "\terr := renameFile(tempName, finalName)", False),
+       (CF, "\treturn time.Now().Format(", "\treturn now().Format(", False))
+benign("seam-writer-file-name-clock", "thermal-writer takes the file name's time from a package-level clock variable",
+       ("cmd/thermal-writer/thermalraw.go", "func nextFileName(", "var clock = time.Now\n\nfunc nextFileName(", False),
+       ("cmd/thermal-writer/thermalraw.go", "time.Now().Format(\"2006_01_02T15_04_05\")", "clock().Format(\"2006_01_02T15_04_05\")", False))
+
 here = os.path.dirname(os.path.abspath(__file__))
 for f in os.listdir(os.path.join(here, "benign")):
     os.unlink(os.path.join(here, "benign", f))
